@@ -1374,6 +1374,8 @@ class Interp:
                 return
             if attr == "data":
                 self.write(base, v.term if isinstance(v, VTens) else None, node, "set .data")
+                if isinstance(v, VTens) and v.obj is not base.obj:
+                    base.obj.may_alias.add(v.obj)  # p.data = t: p now uses t's storage
                 return
             raise Unsupported("tensor attribute store %s" % attr, node, self.site(node))
         if isinstance(base, VUnknown):
